@@ -163,7 +163,14 @@ def trace_bounded_instance():
                 own.append(None)
             elif which.startswith('gmm'):
                 ct = which[4:]
-                model = GMMTrainer().fit(y, initialization=init, iterations=i, saliency=sal, weight_constant_axis=wca, covariance_type=ct)
+                try:
+                    model = GMMTrainer().fit(y, initialization=init, iterations=i, saliency=sal, weight_constant_axis=wca, covariance_type=ct)
+                except ValueError as e:
+                    # a component collapsed: the Gaussian constructor refuses a covariance that is not positive definite
+                    # (documented behaviour, C09); the trace ends here and its prefix is still checked
+                    if 'ill-defined empirical covariance' in str(e):
+                        break
+                    raise
                 lp = gauss_logpdf(y, model.gaussian.mean, model.gaussian.covariance, ct)
                 wgt = model.weight
                 guard_ok.append(True)
